@@ -252,6 +252,14 @@ func (w *brWorld) dequeue() {
 	for i, h := range w.enqHashes {
 		hs[i] = h[strings.Index(h, ":")+1:]
 	}
+	seenDep := map[string]bool{}
+	for _, dk := range w.deqDeposits {
+		k := dk[:strings.Index(dk, ":")+1] + strings.Split(dk, ":")[1]
+		if seenDep[k] {
+			w.violate("C06", "fifo", "deposit-handed-over-twice", "the same deposit (txid:vout) was handed over twice: "+k)
+		}
+		seenDep[k] = true
+	}
 	chk("block-hash", hs, w.deqHashes)
 	chk("deposit", w.enqDeposits, w.deqDeposits)
 	chk("paid", w.enqPaid, w.deqPaid)
@@ -435,6 +443,12 @@ func (w *brWorld) relayerOp() {
 			due := dur >= p.ElectingPeriod || (!rel.ProposerAccepted && p.AcceptProposerTimeout != 0 && dur >= p.AcceptProposerTimeout)
 			if due != (after.Epoch == rel.Epoch+1) || (!due && after.Epoch != rel.Epoch) {
 				w.violate("C16", "election", "election-timing", fmt.Sprintf("election due=%v but epoch went %d -> %d", due, rel.Epoch, after.Epoch))
+			}
+			if after.Epoch == rel.Epoch+1 {
+				// a (new or confirmed) proposer of a group with voters must accept again; a lone proposer is accepted
+				if want := len(after.Voters) == 0 && after.Proposer == rel.Proposer; after.ProposerAccepted != want {
+					w.violate("C16", "election", "accept-flag-after-election", fmt.Sprintf("after an election with %d voters the proposer-accepted flag is %v", len(after.Voters), after.ProposerAccepted))
+				}
 			}
 			w.monitorGroup(w.dump(), "after end-block")
 		}
